@@ -209,11 +209,13 @@ def build_harness(crate, timeout=3000, binname=None):
     return sh("cargo build --release --offline -p %s%s 2>&1 | tail -40" % (crate, b), cwd=HARNESS, timeout=timeout)
 
 
-def run_sharded(cmd, lines, timeout=1800):
-    """feed `lines` to NPROC instances of cmd, keep order; returns list of output lines"""
+def run_sharded(cmd, lines, timeout=1800, per=200, line_timeout=60):
+    """feed `lines` to up to NPROC instances of cmd (about `per` lines each), keep order;
+    returns list of output lines"""
     if not lines:
         return []
-    k = max(1, min(NPROC, len(lines) // 200 + 1))
+    per = max(1, per)
+    k = max(1, min(NPROC, (len(lines) + per - 1) // per))
     size = (len(lines) + k - 1) // k
     chunks = [lines[i:i + size] for i in range(0, len(lines), size)]
 
@@ -238,7 +240,7 @@ def run_sharded(cmd, lines, timeout=1800):
         if r is None:
             for ln in chunk:
                 try:
-                    p = subprocess.run(cmd, input=(ln + "\n").encode(), stdout=subprocess.PIPE, stderr=subprocess.PIPE, timeout=60)
+                    p = subprocess.run(cmd, input=(ln + "\n").encode(), stdout=subprocess.PIPE, stderr=subprocess.PIPE, timeout=line_timeout)
                     o = p.stdout.decode("utf-8", "replace").strip("\n")
                     if p.returncode != 0 or o == "" and p.returncode != 0:
                         o = "!crash rc=%d %s" % (p.returncode, p.stderr.decode("utf-8", "replace")[-200:].replace("\n", " "))
@@ -265,11 +267,14 @@ class Ctx:
         self.impl_bin = None
         self.model_bin = os.path.join(BUILD, "ocaml", prop, "model_" + prop)
 
+        self.shard_per = {}     # component name -> lines per implementation process ("shard_lines")
+        self.line_timeout = {}  # component name -> seconds for one line in the one-by-one fallback
         self.impl_bins = {}     # component name -> binary (components may use another harness crate)
         self.model_bins = {}    # component name -> extracted model binary of another family
 
     def impl(self, comp, lines):
-        return run_sharded([self.impl_bins.get(comp, self.impl_bin), comp], lines)
+        return run_sharded([self.impl_bins.get(comp, self.impl_bin), comp], lines,
+                           per=self.shard_per.get(comp, 200), line_timeout=self.line_timeout.get(comp, 60))
 
     def model(self, comp, lines):
         return run_sharded([self.model_bins.get(comp, self.model_bin), "run", comp], lines)
@@ -316,6 +321,8 @@ def shrink(ctx, comp, case, still_bad, valid):
 def run_component(ctx, comp, stats):
     """returns list of problems: dicts with kind in {judge, mismatch}"""
     name = comp["name"]
+    ctx.shard_per[name] = comp.get("shard_lines", 200)
+    ctx.line_timeout[name] = comp.get("line_timeout", 60)
     rng = random.Random((ctx.seed * 1000003) ^ int(hashlib.sha256(name.encode()).hexdigest()[:8], 16))
     n = comp.get(ctx.tier, comp.get("quick", 1000))
     cases = []
